@@ -1,8 +1,9 @@
 import json,re,sys
 def kind_re(kinds):
-    # the fault kind (with or without variant) as the single fault or as an ingredient of a shrunk multi-fault set
+    # the fault kind (with or without variant) as the single fault, as an ingredient of a shrunk multi-fault set,
+    # or as an ingredient of a history that did not shrink to one step (via-history:<kinds>)
     alt="|".join(re.escape(k) for k in kinds)
-    return r".*(?:\||\+|\|multi-fault:)(?:%s)(?::[a-z0-9-]+)*(?:\+[^|]+)?(?:\|.*)?" % alt
+    return r".*(?:\||\+|\|multi-fault:|\|via-history:)(?:%s)(?::[a-z0-9-]+)*(?:\+[^|]+)?(?:\|.*)?" % alt
 P=r"(?:cli-|rec-|isl-|rsrv-)?"
 FAMS=[
  ("C07-FAM1","F3", P+r".*", kind_re(["cross-zone-signature"]),
@@ -15,8 +16,6 @@ FAMS=[
   "C07-F10 family (the validator never checks that a response answers the question): an answer section left without the data asked for (record dropped, owner/rdata altered, foreign records) is returned as 'no data' instead of an error; every denial-side violation with outcome irrelevant-answer, or whose shrunk fault set alters/drops/replaces the answer's data record"),
  ("C07-FAM5","F11d", P+r"(?:secure-not-genuine|served-forged-to-cd0)", r"dnskey:not-in-zone-data\|.*|answer\|(?:replace-genuine:dnskey:rdata|alter-bit:dnskey)",
   "C07-F11d family (a DNSKEY RRset is accepted without a valid RRSIG when every key in it matches a DS / the anchor; anchors matched by key bytes regardless of owner): a key set that is not the zone's (keys dropped, altered, planted) is Secure"),
- ("C07-FAM6","F13", P+r"(?:false-denial|unauthenticated-denial|insecure-in-signed-zone)", r"[^|]+\|via-history\|(?:tampered-step|honest-step-after-tampering)(?:\|do0)?",
-  "C07-F13 family (the validation cache keeps a downgraded verdict): after one tampered exchange made an RRset Insecure / an unauthenticated denial pass (families 2-4), the verdict is served from ValidationCache to later steps on the same validator, and a tampered step after an honest one reuses cached key material; every denial-side or insecure-side violation that needs the history to show (shrinks to two or more steps). Secure-side via-history signatures are not covered"),
 ]
 if __name__=="__main__":
     allsig=json.load(open('/var/tmp/c07sweep/all.json'))
